@@ -215,6 +215,14 @@ def triggers(t, g):
                     tr.add("symbol-hint")
                 if hint in (TSEXP, TCLOB, TSYM) and mg.contains(ft, ("I",)):
                     tr.add("hint-into-iface")
+            for idx, (name, ex, emb, tag, ft) in enumerate(t[1]):
+                if emb and ft[0] == "P" and ft[1][0] == "ST" and tag.split(b",")[0] == b"" and g[0] == "S" and idx < len(g[1]) \
+                        and g[1][idx][0] == "P" and g[1][idx][1] is not None:
+                    try:
+                        if not py_fields(ft[1]):
+                            tr.add("embedded-ptr-fieldless")
+                    except DupField:
+                        pass
             for (name, ex, emb, tag, ft) in t[1]:
                 if emb and tag.split(b",")[0] == b"" and (ft[1] if ft[0] == "P" else ft)[0] in ("TS", "DEC", "BIG", "TIME"):
                     tr.add("embedded-special")
@@ -254,7 +262,8 @@ def classify_case(line, m, g):
                      ("iface-leaf", "interface-container-leaves-come-back-as-pointers"),
                      ("hint-into-iface", "hinted-value-inside-interface-changes-type"),
                      ("symbol-hint", "symbol-hinted-string-comes-back-via-SymbolToken-or-sid"),
-                     ("ptr-to-nil", "pointer-to-nil-collapses-to-nil-pointer")):
+                     ("ptr-to-nil", "pointer-to-nil-collapses-to-nil-pointer"),
+                     ("embedded-ptr-fieldless", "embedded-pointer-to-fieldless-struct-comes-back-nil")):
         if key in tr:
             return cls
     return None
